@@ -262,6 +262,8 @@ def comparable(fp):
                 if plist:       # a term whose documents are all deleted stays in the lexicon until a merge
                     t2[term] = sorted(p[0] for p in plist)
             out[part] = t2
+        elif part == "columns" and v is None:
+            out[part] = {}      # no column at all: right only for an index without documents
         else:
             out[part] = v
     return out
